@@ -1,7 +1,7 @@
 (* C17 — colour is presentation only. *)
 From WD Require Import Base Wire Conn Color LetterId Show MatcherParse.
 From WD Require Import Protocol Matcher Session Shipped.
-From WD Require Import ColorProofs ShowProofs ConnMgrProofs.
+From WD Require Import ColorProofs ShowProofs ConnMgrProofs Help HelpProofs.
 From WD Require Import SessionColorA SessionColorB SessionColorJ SessionColorC SessionColorD SessionColorE SessionColorG SessionColorH SessionColorI SessionColorK SessionColorL.
 Open Scope N_scope.
 
@@ -121,3 +121,31 @@ Theorem C17_pasted_process_command_200 : forall s c,
   process_command command_fuel s (no_color c) = process_command command_fuel s c.
 Proof. exact pasted_process_command_200. Qed.
 Print Assumptions C17_pasted_process_command_200.
+
+(* ---- the help screen (Model/Help.v, Proofs/HelpProofs.v) ----------------------------------------------
+   help_text turns the text of matchers.md into the screen of `help matcher`; the model takes the FILE TEXT.
+   For every text without an escape character: the coloured screen, stripped, IS the plain screen, which
+   contains no escape character; and whether a screen is produced at all never depends on the switch. *)
+Theorem C17_help_screen : forall text, esc_free text ->
+  match help_text true text, help_text false text with
+  | Ok a, Ok b => no_color a = b /\ esc_free b
+  | Raise e _, Raise e' _ => e = e'
+  | _, _ => False
+  end.
+Proof. exact help_text_color_invariant. Qed.
+Print Assumptions C17_help_screen.
+
+Theorem C17_help_outcome : forall text,
+  match help_text true text, help_text false text with
+  | Ok _, Ok _ => True
+  | Raise e _, Raise e' _ => e = e'
+  | _, _ => False
+  end.
+Proof. exact help_text_outcome_colour_independent. Qed.
+Print Assumptions C17_help_outcome.
+
+(* the second column starts at column 32 of the plain screen: the padding is computed from the plain cell *)
+Theorem C17_help_column : forall m0 m1, (List.length m0 <= 32)%nat ->
+  exists pad, help_row false m0 m1 = m0 ++ pad ++ m1 /\ List.length (m0 ++ pad) = 32%nat.
+Proof. exact help_row_column. Qed.
+Print Assumptions C17_help_column.
